@@ -351,3 +351,27 @@ package unionstore
 //@   loop 1 invariant done: forall i int :: 0 <= i && i <= rangeindex ==> (gHas(db, keys[i]) ==> inDom(m, string(keys[i])))
 //@   ensures value: result1 == nil ==> forall k []byte :: inDom(result0, string(k)) ==> inKeys(keys, k) && gHas(db, k) && result0[string(k)].Value == gVal(db, k)
 //@   ensures all: result1 == nil && defined(m) ==> forall i int :: 0 <= i && i < len(keys) && gHas(db, keys[i]) ==> inDom(result0, string(keys[i]))
+
+// ---- when a flush is due (C16) and the writers of the pipelined buffer -----------------------------------------------------------
+// (size: what the mutable tier reports as its memory use.) A flush is due only when the mutable tier has reached the minimum size AND (holds the minimum number of keys OR has
+// reached the forced-flush size), and not while a flush is still running below the forced-flush size; at or above the
+// forced-flush size it is always due. (Proved: never below the minimum size; always at the forced size.)
+//@ func (*PipelinedMemDB) needFlush
+//@   prop C16
+//@   may-panic
+//@   opaque-callee Mem Len Load
+//@   at return assert small: result ==> size >= p.flushOption.MinFlushMemSize
+//@   at return assert forced: size >= p.flushOption.MinFlushMemSize && size >= p.flushOption.ForceFlushMemSizeThreshold ==> result
+// Every write goes to the mutable tier only (never to the tier being flushed) and reports that tier's error.
+//@ func (*PipelinedMemDB) Set
+//@   prop C16
+//@   may-panic
+//@   opaque-callee onMemChange
+//@   at call(Set) assert mutable: recv == p.memDB && arg0 == key && arg1 == value
+//@   ensures same: p.memDB == old(p.memDB) && p.flushingMemDB == old(p.flushingMemDB) && p.generation == old(p.generation)
+//@ func (*PipelinedMemDB) Delete
+//@   prop C16
+//@   may-panic
+//@   opaque-callee onMemChange
+//@   at call(Delete) assert mutable: recv == p.memDB && arg0 == key
+//@   ensures same: p.memDB == old(p.memDB) && p.flushingMemDB == old(p.flushingMemDB) && p.generation == old(p.generation)
